@@ -4,7 +4,6 @@
    place of the edit; and Entry::replace for an arbitrary register file with such an operand. *)
 From V.model Require Import Base RelLex RelParse RelAcc RelGrammar RelEdit RelEditSpec RelEditTree.
 From V.proofs Require Import BaseP RelEditP RelEditStP RelEditHistP RelEditTreeP RelEditReplaceP RelEditParsedP.
-Set Default Timeout 60.
 
 Lemma attach_child_sub_x ts rs pr cr tid ri T p kd cs idx tc rc Tc pc ic C :
   nth_error rs pr = Some (Some (mk_hnd tid p)) -> nth_error rs cr = Some (Some (mk_hnd tc (pc ++ [ic]))) ->
